@@ -198,6 +198,50 @@ def check(idx: Index, rep: Report, tier: str) -> str:
     else:
         r3.fail(f.fq, Finding("C26.R3", f.fq, "column-after-append", f"pending rows get the new zero column at `{idx_txt}` evaluated {'before' if before else 'after'} local_exprs.append: the column lands after the constant term, so an existing constant becomes the coefficient of the new local", f.loc))
 
+    # mod: e mod c = e - c * (e floordiv c): the coefficient given to the quotient local is -c in both branches
+    # (new local column / existing local column)
+    f = idx.func(AE, "SimpleAffineExprFlattener.visit_mod_expr")
+    mcfg = CFG(f.node)
+    ins = [c for c in calls_in(f.node) if call_attr(c) == "insert" and len(c.args) == 2 and unparse(c.func.value) == "lhs"]  # type: ignore[attr-defined]
+    augs = [s_ for s_ in walk_local(f.node) if isinstance(s_, ast.AugAssign) and isinstance(s_.target, ast.Subscript) and unparse(s_.target.value) == "lhs"]
+    if len(ins) != 1 or len(augs) != 1:
+        raise AnalysisError(f"{f.fq}: the two places that give the quotient local its coefficient (lhs.insert / lhs[...] -=) were not found")
+    from ..polyform import canon as _pc
+
+    c_new = _pc(resolved_text(mcfg, ins[0].args[1], mcfg.node_of(ins[0])))
+    aug = augs[0]
+    c_old = _pc(resolved_text(mcfg, aug.value, mcfg.node_of(aug)))
+    c_old = c_old if isinstance(aug.op, ast.Add) else _pc(f"-({resolved_text(mcfg, aug.value, mcfg.node_of(aug))})") if isinstance(aug.op, ast.Sub) else "?"
+    gc = [c for c in calls_in(f.node) if unparse(c.func) == "math.gcd"]
+    if not gc:
+        raise AnalysisError(f"{f.fq}: gcd computation not found")
+    want_c = _pc("-(" + resolved_text(mcfg, gc[0].args[-1], mcfg.node_of(gc[0])) + ")")
+    if c_new == c_old == want_c:
+        r3.ok(f.fq + ":mod-coefficient", f"{f.loc} quotient local gets coefficient -rhs_const in both branches")
+    else:
+        r3.fail(f.fq + ":mod-coefficient", Finding("C26.R3", f.fq, "mod-coefficient", f"e mod c is rewritten as e - c * q: the quotient local must get the coefficient -c (the modulus) both when it is new (`{unparse(ins[0])}` gives {c_new}) and when an existing local is reused (`{unparse(aug)}` gives {c_old}); with the gcd-reduced divisor the two differ whenever numerator and modulus share a factor", f"{AE}:{aug.lineno}"))
+
+    # ---- R5 unary minus binds tighter than every binary operator (grammar: primary ::= `-` primary)
+    r5 = rep.rule("C26.R5", "the affine parser negates exactly a primary: `-a floordiv b` is (-a) floordiv b, as the printer's parenthesised form and MLIR read it", floor=1)
+    from ..paths import enum_paths as _ep
+
+    pf = idx.func("xdsl/parser/affine_parser.py", "AffineParser._parse_primary")
+    negs = 0
+    for pth in _ep(pf.node):
+        if pth.end != "return" or pth.value is None:
+            continue
+        rv = ast.parse(pth.rvalue(), mode="eval").body
+        if isinstance(rv, ast.UnaryOp) and isinstance(rv.op, ast.USub):
+            negs += 1
+            operand = unparse(rv.operand)
+            inst = f"{pf.fq}:neg"
+            if re.fullmatch(r"self\._parse_primary\(.*\)", operand) and "_parse_binop_rhs" not in operand and "_parse_affine_expr" not in operand:
+                r5.ok(inst, f"{pf.loc} `-` applies to `{operand[:50]}`")
+            else:
+                r5.fail(inst, Finding("C26.R5", pf.fq, "unary-minus-scope", f"the negated operand is `{operand[:90]}`, not a primary: operators that follow are absorbed before the negation, so `-9 floordiv 2` is read as -(9 floordiv 2) = -4 instead of (-9) floordiv 2 = -5 and `-d0 mod 3` as -(d0 mod 3)", pf.loc))
+    if negs == 0:
+        raise AnalysisError(f"{pf.fq}: the unary minus case was not found")
+
     # ---- R4 construction-time folds of the division-like operators
     r4 = rep.rule("C26.R4", "floordiv / ceildiv / mod constructors return the constant fold, the node built from (kind, self, other), or a fold from the reviewed identity table under that identity's divisibility guard", floor=3)
     from ..astutil import guard_facts
